@@ -23,11 +23,12 @@ TOL_SUM = 1e-4  # Adler / GLS / Bjorken (measured <= 1.4e-5)
 TOL_LBL = 3e-4  # light-by-light piece (measured 6.5e-5)
 
 RULE = (
-    "states = (check, n_f): sum-rule checks per (class, order), closed-form checks per (class, coefficient) on a z lattice of 41 points and 8 Mellin N (integer and real), relation checks between classes; "
+    "states = (check, n_f [, lepton/anti-lepton pair for the engine-level sum rules]): sum-rule checks per (class, order), closed-form checks per (class, coefficient) on a z lattice of 41 points and 8 Mellin N (integer and real), relation checks between classes; "
     "exact (analytic) statements at 1e-12 point-wise / 1e-9 on moments, parametrised NNLO/N3LO sum rules at 1e-4 (light-by-light piece 3e-4) of the sum of absolute pieces; non-trivial = every state (each compares non-zero numbers)"
 )
 ASSUMPTIONS = [
     "classes are instantiated with a stub ESF (they only store it); n_f = 3..6",
+    "engine-level states: the kernels Combiner.collect_elems assembles for F2_light / F3_light CC in ZM-VFNS at PTO 3 (Q2 = 2, 10, 100, 1e5 for n_f = 3..6), for the pairs (neutrino, antineutrino) and (electron, positron): per parton, the first moment of the coefficient of F2(l)-F2(lbar) vanishes at orders 1..3 (Adler) and that of F3(l)+F3(lbar), valence class aside, equals LO weight x GLS series coefficient",
     "sum-rule constants from Larin-Vermaseren (GLS/Bjorken) in a_s = alpha_s/4pi; tolerance for parametrised orders 1e-4 (3e-4 for the light-by-light piece) x sum|reg,sing,delta pieces| (Vogt et al. quote <= 1e-3 accuracy; measured residuals <= 1.4e-5 and 6.5e-5)",
     "higher moments of NNLO/N3LO pieces are not compared with literature values (cannot be re-derived offline); only the exact inter-class relations the code documents are checked there",
 ]
@@ -44,6 +45,9 @@ def states(tier, seed):
     for nf in (3, 4, 5, 6):
         for chk in ("adler", "gls", "bjorken", "valence", "nlo_f2", "nlo_fl", "nlo_f3", "nlo_g1", "nlo_g4gl", "rel_g1_f3", "rel_g4_f2", "rel_gl_fl", "rel_cc", "lo"):
             out.append({"check": chk, "nf": nf})
+        # the same sum rules on the kernels the engine assembles (weights x coefficient classes) for lepton / anti-lepton pairs
+        for chk, pair in itertools.product(("engine_adler", "engine_gls"), (["neutrino", "antineutrino"], ["electron", "positron"])):
+            out.append({"check": chk, "nf": nf, "pair": pair})
     return out
 
 
@@ -145,9 +149,74 @@ def _cmp_same(st, viol, label, a, b, orders):
     return worst
 
 
+_Q2_FOR_NF = {3: 2.0, 4: 10.0, 5: 100.0, 6: 1e5}
+
+
+def _engine_moments(kind, proj, nf, skip=()):
+    """first moments per parton and order of the light CC kernels the Combiner assembles: sum_k w_k[pid] * M_1(coeff_k[order])."""
+    import yadism.coefficient_functions as cf
+
+    name = f"{kind}_light"
+    r = yrun.runner({"scheme": "ZM-VFNS", "process": "CC", "projectile": proj, "pto": 3}, {name: [cards.kin(0.1, _Q2_FOR_NF[nf])]})
+    esf = r.observables[name].elements[0]
+    M = {o: np.zeros(14) for o in range(4)}
+    S = {o: np.zeros(14) for o in range(4)}
+    classes = set()
+    for cfe in cf.Combiner(esf).collect_elems():
+        cname = type(cfe.coeff).__name__
+        if int(cfe.coeff.nf) != nf:
+            raise AssertionError(f"kernel {cname} built with nf={cfe.coeff.nf}, expected {nf}")
+        if cname in skip:
+            continue
+        classes.add(cname)
+        w = np.array([cfe.partons.get(pid, 0.0) for pid in yrun.PIDS], dtype=float)
+        for o in range(4):
+            if not cfe.has_order(o):
+                continue
+            rsl = cfe.coeff[o]()
+            if rsl is None:
+                continue
+            M[o] += w * _moment(rsl, 1.0)
+            S[o] += np.abs(w) * _pieces(rsl)
+    return M, S, classes
+
+
+def _engine(st):
+    nf, chk = st["nf"], st["check"]
+    viol, info = [], {}
+    l, lbar = st["pair"]
+    if chk == "engine_adler":
+        (Ma, Sa, ca), (Mb, Sb, cb) = _engine_moments("F2", l, nf), _engine_moments("F2", lbar, nf)
+        lo = Ma[0] - Mb[0]
+        nontrivial = bool(np.any(lo != 0))
+        for o in (1, 2, 3):
+            d = Ma[o] - Mb[o]
+            sc = Sa[o] + Sb[o]
+            tol = (1e-9 if o <= 1 else TOL_SUM) * (sc + sc.max())
+            info[f"engine_adler_o{o}"] = float(np.max(np.abs(d) / (sc + sc.max())))
+            if np.any(np.abs(d) > tol):
+                i = int(np.argmax(np.abs(d) - tol))
+                viol.append(_v(st, "engine-adler", f"Adler sum rule on the assembled CC kernels: first moment of the coefficient of parton {yrun.PIDS[i]} in F2({l}) - F2({lbar}) at order {o}, nf={nf}: {d[i]:.8g} (expected 0, LO coefficient {lo[i]:.4g}; classes {sorted(ca)})"))
+    else:
+        (Ma, Sa, ca), (Mb, Sb, cb) = _engine_moments("F3", l, nf, skip=("Valence",)), _engine_moments("F3", lbar, nf, skip=("Valence",))
+        lo = Ma[0] + Mb[0]
+        nontrivial = bool(np.any(lo != 0))
+        for o in (1, 2, 3):
+            d = Ma[o] + Mb[o] - lo * ref_nlo.gls_bjorken(o, nf)
+            sc = Sa[o] + Sb[o]
+            tol = (1e-9 if o <= 1 else TOL_SUM) * (sc + sc.max())
+            info[f"engine_gls_o{o}"] = float(np.max(np.abs(d) / (sc + sc.max())))
+            if np.any(np.abs(d) > tol):
+                i = int(np.argmax(np.abs(d) - tol))
+                viol.append(_v(st, "engine-gls", f"GLS sum rule on the assembled CC kernels: first moment of the coefficient of parton {yrun.PIDS[i]} in F3({l}) + F3({lbar}) at order {o}, nf={nf}: {(Ma[o]+Mb[o])[i]:.8g}, expected LO weight {lo[i]:.4g} x series coefficient {ref_nlo.gls_bjorken(o, nf):.8g} (classes {sorted(ca)})"))
+    return {"violations": viol[:3], "nontrivial": nontrivial, "outcome": digest([chk, nf, st["pair"], {k: round(v, 12) for k, v in info.items()}]), "transitions": 6, "sub": 6, "info": info}
+
+
 def execute(st):
     nf = st["nf"]
     chk = st["check"]
+    if chk.startswith("engine_"):
+        return _engine(st)
     viol = []
     info = {}
     nt = 0
